@@ -233,6 +233,10 @@ fn privacy_programs() -> Vec<(String, bool, String)> {
     out.push(("mod m {\n    type alias Secret = float\n    pub fn id(x) { x }\n}\nfn dsp() {\n    let x: m::Secret = 3.0\n    x\n}\n".to_string(), true, "private type alias by a qualified path".to_string()));
     out.push(("mod m {\n    type alias Secret = float\n    pub fn id(x) { x }\n}\nuse m::Secret\nfn dsp() {\n    let x: Secret = 3.0\n    x\n}\n".to_string(), true, "private type alias through use".to_string()));
     out.push(("mod m {\n    pub type alias Open = float\n    pub fn id(x) { x }\n}\nfn dsp() {\n    let x: Open = 3.0\n    x\n}\n".to_string(), false, "pub type alias by its plain name".to_string()));
+    // a `use` that is not `pub` is a private member of the module it is written in (seed C17q): not reachable as module::name
+    out.push(("mod internal {\n    pub fn helper() { 42.0 }\n}\nmod api {\n    use internal::helper\n    pub fn get() { helper() }\n}\nfn dsp() {\n    api::helper()\n}\n".to_string(), true, "non-pub `use` of a module referenced from the top level as module::name".to_string()));
+    out.push(("mod outer {\n    pub mod lib {\n        pub fn one() { 1.0 }\n        pub fn two() { 2.0 }\n    }\n    pub mod inner {\n        use outer::lib::{one, two}\n        pub fn get() { one() + two() }\n    }\n}\nmod sibling {\n    pub fn steal() { outer::inner::two() }\n}\nfn dsp() { sibling::steal() }\n".to_string(), true, "non-pub multi-import of a nested module referenced from a sibling module".to_string()));
+    out.push(("mod internal {\n    pub fn helper() { 42.0 }\n}\nmod api {\n    pub use internal::helper\n}\nfn dsp() {\n    api::helper()\n}\n".to_string(), false, "pub use re-export referenced as module::name (control)".to_string()));
     out
 }
 
@@ -1565,11 +1569,13 @@ fn main() {
     if args.get(1).map(|s| s.as_str()) == Some("state-misc") {
         // known findings F31 / F32 (C05), side observations of seeding agent C05m confirmed with the real back ends.
         // Every program runs in a child process (an access outside the storage may kill the VM).
-        let progs: [(&str, &[f64], &str); 2] = [
+        let progs: [(&str, &[f64], &str); 3] = [
             ("fn counter(){ self+1.0 }\nfn foo(x = counter(), y = 200.0){ x+y }\nfn dsp(){\n  foo({..})\n}\n", &[201.0, 202.0, 203.0, 204.0],
              "a stateful DEFAULT-ARGUMENT expression: its cell is in no published layout"),
             ("fn counter(){ self+1.0 }\nfn other(){ self+10.0 }\nfn dsp(){\n  let fs = [counter, other]\n  let f = fs[0]\n  let a = other()\n  let b = f()\n  let c = other()\n  a + b*1000.0 + c*1000000.0\n}\n", &[10001010.0, 20001020.0, 30001030.0, 40001040.0],
              "a stateful function taken out of an array and called"),
+            ("fn counter(inc){ self + inc }\nfn three(){ counter(1.0) + counter(2.0) + counter(3.0) }\nfn sw(c){\n  if (c) {\n    delay(1.0, 5.0, 1.0)\n  } else {\n    three()\n  }\n}\nfn dsp(){\n  let n = counter(1.0)\n  sw(n < 3.0)\n}\n", &[0.0, 5.0, 6.0, 12.0, 18.0, 24.0],
+             "the two branches of an `if` own cells of different kinds (a delay line / three feedback cells): the layout lists only the larger branch's cells and both branches run on the same words"),
         ];
         let idx: usize = args.get(2).and_then(|s| s.parse().ok()).unwrap_or(0).min(progs.len() - 1);
         let (src, expect, desc) = progs[idx];
@@ -1674,13 +1680,15 @@ fn main() {
         // known findings F27 - F29 (C17), side observations of seeding agent C17m confirmed with the real compiler
         let idx: usize = args.get(2).and_then(|s| s.parse().ok()).unwrap_or(0);
         // (program, Some(expected first sample) | None = must be rejected, description)
-        let progs: [(&str, Option<f64>, &str); 3] = [
+        let progs: [(&str, Option<f64>, &str); 4] = [
             ("fn helper() { 1.0 }\nmod m {\n  fn helper() { 2.0 }\n  pub fn run() { helper() }\n}\nfn dsp() { m::run() }\n", Some(2.0),
              "a bare reference inside module m to m's own function `helper` resolves to an EARLIER top-level function of the same name (with the top-level function declared after the module it resolves to m::helper)"),
             ("mod outer {\n  mod inner {\n    pub fn f() { 3.0 }\n  }\n}\nfn dsp() { outer::inner::f() }\n", None,
              "a pub function of the NON-pub nested module outer::inner is referenced from the top level through the qualified path"),
             ("mod m {\n  fn secret() { 42.0 }\n  pub type alias secret = float\n}\nfn dsp() { m::secret() }\n", None,
              "the private function m::secret is referenced from outside because a pub type alias of the same name shares its visibility entry"),
+            ("mod m {\n  fn secret() { 42.0 }\n  let y = 1.0\n}\nlet y = m::secret()\nfn dsp() { y }\n", None,
+             "the private function m::secret is referenced from the right-hand side of a TOP-LEVEL `let y` because module m has a module-level `let y` of the same (unmangled) name, whose module context the top-level binding inherits"),
         ];
         let (src, expect, desc) = progs[idx.min(progs.len() - 1)];
         let errs = compile_errors(src);
